@@ -18,6 +18,7 @@ RULE = ('Twin worlds: the same session configuration is run by the real Backtest
         ' Widened: in 40% of the twins the data source first serves another session (started later) in both worlds; expensive shares whose Adj Close is quoted to cents; zero/negative prices in the rewritten future; Adj Close blank on its own.')
 RULE += ' 30% of the twins run on two data sources (the second carries some of the same tickers at other prices, from the first day, sometimes reaching further into the future; in the first source one such ticker starts part-way); both sources are rewritten after T, mostly by deleting/removing bars in that case. 40% of the markets contain untraded days whose bar repeats the previous bar in every column. With a late-starting asset the cut is often before its first bar and the handler has usually served an earlier session.'
 RULE += " A fifth of the 'stale' markets quote closes in whole units (written without decimals) with fractional opens."
+RULE += ' Round 11: 20% of the twin cases have markets with one-session crashes / spikes (half undone the next day) and the cut day on such a day; 12% have the cut day on a day where a file has an open but no close, with the later bars removed or deleted (unadjusted prices).'
 ASSUMPTIONS = ['the cut is by day, as in the statement (same-day look-ahead is covered by C08, not C07)']
 
 
